@@ -140,6 +140,29 @@ func vC15World(r *vRand, dur time.Duration) map[string]int {
 			count("cut")
 		}
 	})
+	// a raw peer of the other key which sends control frames (unsolicited pongs, pings) and odd data frames
+	vC15Spin(&wg, stop, r, func(r *vRand) {
+		c, err := vRawDial(ls.Addr, okey, skey.Pub)
+		if err != nil {
+			time.Sleep(5 * time.Millisecond)
+			return
+		}
+		go func() {
+			for {
+				if _, _, err := c.ReadMessage(); err != nil {
+					return
+				}
+			}
+		}()
+		for i := 0; i < 40; i++ {
+			_ = c.WriteControl(websocket.PongMessage, []byte("p"), time.Now().Add(time.Second))
+			_ = c.WriteControl(websocket.PingMessage, []byte("q"), time.Now().Add(time.Second))
+			_ = c.WriteMessage(websocket.BinaryMessage, r.Bytes(r.Intn(12)))
+			time.Sleep(time.Duration(r.Intn(1500)) * time.Microsecond)
+		}
+		c.Close()
+		count("raw-control")
+	})
 	time.Sleep(dur * 2 / 3)
 	atomic.StoreInt32(&chaos, 1)
 	time.Sleep(dur / 3)
@@ -252,6 +275,62 @@ func vC15Uni(r *vRand, dur time.Duration) map[string]int {
 	return counts
 }
 
+// a library client against a raw server which sends control frames and odd data
+func vC15RawServer(r *vRand, dur time.Duration) map[string]int {
+	skey, ckey := vGenKey(r), vGenKey(r)
+	rs := vStartRawServer(skey, ckey.Pub)
+	defer rs.Close()
+	counts := map[string]int{}
+	var mu sync.Mutex
+	count := func(k string) { mu.Lock(); counts[k]++; mu.Unlock() }
+	cc, err := vDialLib(context.Background(), rs.Addr, ckey, skey.Pub, WithBlock())
+	if err != nil {
+		counts["setup-failed"] = 1
+		return counts
+	}
+	cc.RegisterService(vDesc(), &vImpl{})
+	stop := make(chan struct{})
+	var wg sync.WaitGroup
+	wg.Add(1)
+	rr := r.Fork() // the serving goroutine has a generator of its own
+	go func() {
+		r := rr
+		defer wg.Done()
+		for {
+			select {
+			case <-stop:
+				return
+			case c := <-rs.Conns:
+				go func() {
+					for {
+						if _, _, err := c.ReadMessage(); err != nil {
+							return
+						}
+					}
+				}()
+				for i := 0; i < 60; i++ {
+					_ = c.WriteControl(websocket.PongMessage, []byte("p"), time.Now().Add(time.Second))
+					_ = c.WriteControl(websocket.PingMessage, []byte("q"), time.Now().Add(time.Second))
+					_ = c.WriteMessage(websocket.BinaryMessage, r.Bytes(r.Intn(12)))
+					time.Sleep(time.Duration(r.Intn(1500)) * time.Microsecond)
+				}
+				count("raw-server-control")
+			}
+		}
+	}()
+	vC15Spin(&wg, stop, r, func(r *vRand) {
+		c, cn := context.WithTimeout(context.Background(), 20*time.Millisecond)
+		_ = cc.Invoke(c, "Echo", vAppMsg("r", nil, ""), &message.Response{})
+		cn()
+		count("call")
+	})
+	time.Sleep(dur)
+	vClose(cc, 5*time.Second)
+	close(stop)
+	wg.Wait()
+	return counts
+}
+
 // the backoff strategy object
 func vC15Backoff(r *vRand, dur time.Duration) map[string]int {
 	bs := backoff.NewDefaultExponential()
@@ -290,5 +369,6 @@ func TestVerifC15(t *testing.T) {
 		run("keys", i, vC15Keys, dur/4)
 		run("uni", i, vC15Uni, dur/2)
 		run("backoff", i, vC15Backoff, dur/8)
+		run("raw-server", i, vC15RawServer, dur/3)
 	}
 }
